@@ -1282,7 +1282,9 @@ class AttrParser(BaseParser):
             self.raise_error(
                 "Complex value must be either (float, float) or (int, int)"
             )
-        token = self._consume_token(MLIRTokenKind.R_PAREN)
+        token = self._parse_token(
+            MLIRTokenKind.R_PAREN, "Expected ')' after complex value"
+        )
         end = token.span.end
         value = (real, imag)
         span = Span(start, end, input)
